@@ -628,6 +628,30 @@ func (f *Fn) ResultFormula(resultIdx int, atoms map[string]bool) (Formula, error
 	return disj, nil
 }
 
+// PredImplies checks that whenever result resultIdx of the loop-free predicate
+// f is true, the formula `consequent` (over normalised atoms) holds: result ⇒
+// consequent, decided by truth table.  Unlike PredShape it tolerates extra
+// conjuncts, so a predicate may be strengthened but never lose the consequent.
+func (f *Fn) PredImplies(r *Rule, resultIdx int, consequent string, label string) bool {
+	key := f.Name + ": " + label
+	atoms := map[string]bool{}
+	got, err := f.ResultFormula(resultIdx, atoms)
+	if err != nil {
+		r.Fail(key, f.P.Pos(f.Body.Pos()), "cannot read %s as a predicate: %v", f.Name, err)
+		return false
+	}
+	want, err := ParseFormula(consequent, atoms)
+	if err != nil {
+		r.Fail(key, f.P.Pos(f.Body.Pos()), "bad formula %q: %v", consequent, err)
+		return false
+	}
+	if same, diff := Equivalent(fAnd{got, want}, got, atoms); !same {
+		r.Fail(key, f.P.Pos(f.Body.Pos()), "result of %s does not imply %s; atoms in code: %v; counter-example: %s", f.Name, consequent, keysOf(atoms), diff)
+		return false
+	}
+	return true
+}
+
 // PredShape checks that result resultIdx of f is equivalent to the expected formula.
 func (f *Fn) PredShape(r *Rule, resultIdx int, expected string, label string, assume ...string) bool {
 	key := f.Name + ": " + label
@@ -945,6 +969,21 @@ func (f *Fn) LoopSelectsAllOrFails(r *Rule, sel *Sites, label string, skip ...At
 	return f.loopSelectsAll(r, sel, label, true, skip...)
 }
 
+// LoopVisitsAll is LoopSelectsAll plus: the loop is not left by break at all
+// (not even after the selected site), so every element is examined.
+func (f *Fn) LoopVisitsAll(r *Rule, sel *Sites, label string, skip ...AtomPred) bool {
+	f.strictLoop = true
+	defer func() { f.strictLoop = false }()
+	return f.loopSelectsAll(r, sel, label, false, skip...)
+}
+
+// LoopVisitsAllOrFails is LoopVisitsAll where returning a non-nil error is allowed.
+func (f *Fn) LoopVisitsAllOrFails(r *Rule, sel *Sites, label string, skip ...AtomPred) bool {
+	f.strictLoop = true
+	defer func() { f.strictLoop = false }()
+	return f.loopSelectsAll(r, sel, label, true, skip...)
+}
+
 func (f *Fn) loopSelectsAll(r *Rule, sel *Sites, label string, allowErrReturn bool, skip ...AtomPred) bool {
 	key := f.Name + ": " + label
 	sel = sel.Sync()
@@ -1012,6 +1051,30 @@ func (f *Fn) loopSelectsAll(r *Rule, sel *Sites, label string, allowErrReturn bo
 			}
 			r.Fail(key, f.P.Pos(loop.Pos()), "%s; path (lines): %s", what, f.DescribePath(p))
 			ok = false
+		}
+	}
+	if f.strictLoop {
+		// any way from the body to the loop's exit that does not go through the loop head is a break
+		headCut := map[int]bool{}
+		for _, h := range heads {
+			headCut[h] = true
+		}
+		errCut := map[int]bool{}
+		if allowErrReturn {
+			for v := range cutV {
+				if !sel.Vs()[v] {
+					errCut[v] = true
+				}
+			}
+		}
+		for v := range errCut {
+			headCut[v] = true
+		}
+		for _, d := range done {
+			if p := f.FPath([]int{body}, d, headCut, nil); p != nil {
+				r.Fail(key, f.P.Pos(loop.Pos()), "the loop is left early (break) before every element was examined; path (lines): %s", f.DescribePath(p))
+				ok = false
+			}
 		}
 	}
 	return ok
